@@ -19,11 +19,12 @@ func Run(cfg hx.Config) (*hx.Meta, error) {
 		Cases: func(idx int, t *ga.Type, vals []*ga.Val, r *hx.Rand, out *strings.Builder) {
 			for xi, x := range vals {
 				for yi, y := range vals {
-					op := "cmp"
-					if (xi+yi)%5 == 0 {
-						op = "cmpc"
+					// every pair through the two-argument form; the curried form sees every pair among the
+					// first six pool values (nil, empty, smallest non-empty) and a fifth of the rest
+					fmt.Fprintf(out, "cmp %d %s %s\n", idx, x.Sexp(), y.Sexp())
+					if (xi < 6 && yi < 6) || (xi+yi)%5 == 0 {
+						fmt.Fprintf(out, "cmpc %d %s %s\n", idx, x.Sexp(), y.Sexp())
 					}
-					fmt.Fprintf(out, "%s %d %s %s\n", op, idx, x.Sexp(), y.Sexp())
 				}
 			}
 			// cross-check with the generated Equal on a diagonal band (Compare == 0 <=> Equal)
